@@ -41,8 +41,9 @@ func (g *customGen[V]) maybeValue(t *T) (V, bool) {
 	t = newT(t.tb, t.s, flags.debug, nil)
 	defer t.cleanup()
 
+	finished := false
 	defer func() {
-		if r := recover(); r != nil {
+		if r := abnormalEnd(recover(), finished); r != nil {
 			if _, ok := r.(invalidData); !ok {
 				t.cleanupAfterFailure()
 				panic(r)
@@ -55,6 +56,7 @@ func (g *customGen[V]) maybeValue(t *T) (V, bool) {
 	v := g.fn(t)
 	t.cleanup()
 	t.failOnError() // non-fatal failures signalled on the T given to fn (or from its cleanups) fail the test case
+	finished = true
 
 	return v, true
 }
